@@ -11,6 +11,17 @@ from apache_pins import PINS
 from extract_core import HEADER, Untranslatable, find_def, src_ast, strip_doc, unit
 
 
+FILE_SIDE_PINS = {
+    ("__init__", ()): ['if not encoding:\n    raise TypeError("\'encoding\' is required")',
+                       "if not is_ascii_codec(encoding):\n    raise ValueError('encoding must be 7-bit ascii compatible')",
+                       'self.encoding = encoding', 'self.return_unicode = return_unicode', 'self.autosave = autosave', 'self._path = path', 'self._mtime = 0',
+                       'if path and (not new):\n    self.load()\nelse:\n    self._records = {}\n    self._source = []'],
+    ("path", ("property",)): ['return self._path'],
+    ("path", ("path.setter",)): ['if value != self._path:\n    self._mtime = 0', 'self._path = value'],
+    ("mtime", ("property",)): ['return self._mtime'],
+}
+
+
 def body_of(fn):
     return [ast.unparse(s) for s in strip_doc(fn.body)]
 
@@ -31,6 +42,16 @@ def unit_apache():
     trees = {"passlib/apache.py": src_ast("passlib/apache.py"), "passlib/handlers/digests.py": src_ast("passlib/handlers/digests.py")}
     for (path, qual), want in sorted(PINS.items()):
         expect(qual, body_of(find_def(trees[path], qual)), want)
+    # the constructor and the two properties Model/ApacheFile.lean follows (a property has two defs of one name: compared by decorator)
+    common = find_def(trees["passlib/apache.py"], "_CommonFile")
+    got = {}
+    for f in common.body:
+        if isinstance(f, ast.FunctionDef) and f.name in ("__init__", "path", "mtime"):
+            got[(f.name, tuple(ast.unparse(d) for d in f.decorator_list))] = body_of(f)
+    for key, want in FILE_SIDE_PINS.items():
+        if key not in got:
+            raise Untranslatable(f"_CommonFile.{key[0]} {key[1]}: not found")
+        expect(f"_CommonFile.{key[0]}{' (setter)' if 'path.setter' in key[1] else ''}", got[key], want)
     # methods of the three classes that touch the state but are not pinned would escape the model: refuse them
     touched = ("_records", "_source", "_autosave", "_mtime", "save(", "_set_record", "_load_lines")
     pinned = {q for (p, q) in PINS if p == "passlib/apache.py"}
